@@ -399,7 +399,9 @@ pub fn check_lookup_constraints<F: RichField + Extendable<D>, const D: usize>(
     );
 
     // Check initial Sum constraint.
-    constraints.push(lookup_selectors[LookupSelectors::InitSre as usize] * z_x_lookup_sldcs[0]);
+    constraints.push(
+        lookup_selectors[LookupSelectors::InitSre as usize] * z_x_lookup_sldcs[num_sldc_polys - 1],
+    );
 
     // Check initial RE constraint.
     constraints.push(lookup_selectors[LookupSelectors::InitSre as usize] * z_re);
@@ -569,7 +571,9 @@ pub fn check_lookup_constraints_batch<F: RichField + Extendable<D>, const D: usi
     );
 
     // Check initial Sum constraint.
-    constraints.push(lookup_selectors[LookupSelectors::InitSre as usize] * z_x_lookup_sldcs[0]);
+    constraints.push(
+        lookup_selectors[LookupSelectors::InitSre as usize] * z_x_lookup_sldcs[num_sldc_polys - 1],
+    );
 
     // Check initial RE constraint.
     constraints.push(lookup_selectors[LookupSelectors::InitSre as usize] * z_re);
@@ -1029,7 +1033,7 @@ pub fn check_lookup_constraints_circuit<F: RichField + Extendable<D>, const D: u
     // Check initial Sum constraint.
     constraints.push(builder.mul_extension(
         lookup_selectors[LookupSelectors::InitSre as usize],
-        z_x_lookup_sldcs[0],
+        z_x_lookup_sldcs[num_sldc_polys - 1],
     ));
 
     // Check initial RE constraint.
